@@ -220,7 +220,7 @@ impl Gen<'_> {
                 s.push('-');
             }
             let mut w = self.word();
-            if self.r.chance(1, 40) {
+            if self.r.chance(1, 90) {
                 w = w.to_uppercase(); // deviation: upper-case words
             }
             s.push_str(&w);
@@ -617,9 +617,9 @@ impl Gen<'_> {
                 self.t("new");
                 self.pkgname();
                 self.t("{");
-                match self.r.below(20) {
+                match self.r.below(24) {
                     // instantiation-args ::= arg (',' arg)* (',' '...'?)?
-                    0..=11 => {
+                    0..=15 => {
                         let n = 1 + self.r.below(3);
                         for i in 0..n {
                             if i > 0 {
@@ -636,15 +636,15 @@ impl Gen<'_> {
                             }
                         }
                     }
-                    12..=15 => self.t("..."), // the idiom of the prose; not derivable from the EBNF
-                    16 => {}                    // deviation: empty
-                    17 => {
+                    16..=19 => self.t("..."), // the idiom of the prose; not derivable from the EBNF
+                    20 => {}                    // deviation: empty
+                    21 => {
                         // deviation: fill first
                         self.t("...");
                         self.t(",");
                         self.arg(d - 1);
                     }
-                    18 => {
+                    22 => {
                         // deviation: fill followed by a comma
                         self.arg(d - 1);
                         self.t(",");
@@ -764,7 +764,7 @@ fn comment_text(r: &mut Rng) -> String {
 }
 
 fn block_comment(r: &mut Rng, depth: u32, doc: bool) -> String {
-    let mut s = String::from(if doc { "/**" } else { "/*" });
+    let mut s = String::from(if doc { "/** " } else { "/*" });
     if !doc && r.chance(1, 6) {
         return "/**/".into();
     }
